@@ -1,18 +1,6 @@
 //! mqv: runtime monitors for the mqtt-proto codec (see /verif/DESIGN.md).
 
-mod alloc;
-mod conv;
-mod ev;
-mod fe;
-mod gen;
-mod io;
-mod mon;
-mod refdec;
-mod refenc;
-mod refm;
-mod rng;
-mod walk;
-mod wl;
+use mqv::{alloc, ev, mon, rng, wl};
 
 #[cfg(not(miri))]
 #[global_allocator]
@@ -80,10 +68,42 @@ fn main() {
                 wall
             );
         }
+        "corpus" => {
+            // seed corpus for the cargo-fuzz targets: first byte selects the family (even = v3, odd = v5)
+            let prop = leak(args.get(2).map(|s| s.as_str()).unwrap_or(""));
+            let dir = args.get(3).expect("corpus dir").clone();
+            let n: usize = args.get(4).and_then(|s| s.parse().ok()).unwrap_or(2000);
+            let seed: u64 = arg(&args, "--seed").and_then(|s| s.parse().ok()).unwrap_or(1);
+            std::fs::create_dir_all(&dir).expect("corpus dir");
+            let mut r = rng::Rng::for_worker(seed, prop, 99);
+            let mut k = 0usize;
+            for fam in [mqv::refm::Fam::V3, mqv::refm::Fam::V5] {
+                let tag = if fam == mqv::refm::Fam::V3 { 0u8 } else { 1u8 };
+                mon::bytes::accepted_workload(&mut r, fam, n / 2, &mut |b, _| {
+                    if b.len() <= 1000 {
+                        let mut v = vec![tag];
+                        v.extend_from_slice(b);
+                        let _ = std::fs::write(format!("{}/seed-{:05}", dir, k), v);
+                        k += 1;
+                    }
+                });
+            }
+            println!("wrote {} seeds to {}", k, dir);
+        }
         "replay" => {
             let path = args.get(2).expect("replay file");
-            let text = std::fs::read_to_string(path).expect("read replay file");
-            let (prop, case) = ev::case_from_text(&text).expect("parse replay file");
+            let raw = std::fs::read(path).expect("read replay file");
+            let text = String::from_utf8_lossy(&raw).to_string();
+            let (prop, case) = match ev::case_from_text(&text) {
+                Some((p, c)) if !p.is_empty() => (p, c),
+                _ => {
+                    // a raw libFuzzer artifact: property from --prop, first byte selects the family
+                    let p = arg(&args, "--prop").expect("raw artifact: pass --prop Cxx").to_string();
+                    let fam = if raw.first().map(|b| b & 1 == 0).unwrap_or(true) { 3 } else { 5 };
+                    let kind = if p == "C04" { "frame" } else { "bytes" };
+                    (p, ev::Case::new(kind, fam, raw.get(1..).unwrap_or(&[])))
+                }
+            };
             let prop = leak(&prop);
             alloc::configure(prop, "/verif/replays");
             let mut ctx = ev::Ctx::new(prop, 1, false);
